@@ -3,6 +3,7 @@ package main
 import (
 	"bufio"
 	"context"
+	"database/sql"
 	"encoding/json"
 	"fmt"
 	"os"
@@ -200,6 +201,40 @@ func durableDomain(lines []string) []string {
 			}
 			st.Close()
 			dc.out = append(dc.out, "append larger="+b01(larger))
+		case "busyappend": // another connection holds the write lock for longer than the busy timeout
+			other, err := sql.Open("sqlite", "file:"+dc.path)
+			if err != nil {
+				dc.out = append(dc.out, "!open-other "+err.Error())
+				continue
+			}
+			st, err := ebsql.New(dc.path, ebsql.WithBusyTimeout(40*time.Millisecond))
+			if err != nil {
+				other.Close()
+				dc.out = append(dc.out, "!open-failed "+err.Error())
+				continue
+			}
+			conn, _ := other.Conn(context.Background())
+			_, lerr := conn.ExecContext(context.Background(), "BEGIN IMMEDIATE")
+			data, _ := json.Marshal(map[string]int{"id": dc.next})
+			off, aerr := st.Append(context.Background(), &eb.Event{Type: "t", Data: data, Timestamp: time.Unix(int64(dc.next), 0)})
+			if lerr == nil {
+				conn.ExecContext(context.Background(), "ROLLBACK")
+			}
+			conn.Close()
+			other.Close()
+			st.Close()
+			recs, _, _, _ := dc.readAll()
+			present := len(recs) > 0 && recs[len(recs)-1] == dc.next
+			switch {
+			case aerr != nil && !present:
+				dc.out = append(dc.out, "busyappend refused")
+			case aerr == nil && present:
+				dc.acked = append(dc.acked, dc.next)
+				dc.next++
+				dc.out = append(dc.out, "busyappend refused") // the lock was not effective (cannot happen with IMMEDIATE): treated as a normal append
+			default:
+				dc.out = append(dc.out, fmt.Sprintf("!busyappend Append returned err=%v offset=%q but the event is present=%v after reopening", aerr, off, present))
+			}
 		default:
 			dc.out = append(dc.out, "bad-op "+line)
 		}
